@@ -34,6 +34,8 @@ pub enum Cond {
     Call { f: String, args: Vec<String> },
     /// `not not <literal>`: the condition command invoked from inside its own evaluation
     NotNot(String),
+    /// two operands, either of them in a parenthesised group of its own: `( a ) or b`, `a and ( b )`, `( a ) or ( b )`
+    Group2 { a: String, b: String, or: bool, pa: bool, pb: bool },
     /// `nlout <value>` as the condition command: it answers the value followed by a line break (what a command that
     /// reads a file or a child process's output hands back); such a text is not one of the false values
     NlOut(String),
@@ -130,6 +132,10 @@ pub fn render_cond(c: &Cond) -> String {
         }
         Cond::NotNot(v) => format!("not not {}", rarg(v)),
         Cond::NlOut(v) => format!("nlout {}", rarg(v)),
+        Cond::Group2 { a, b, or, pa, pb } => {
+            let g = |v: &String, p: bool| if p { format!("( {} )", rarg(v)) } else { rarg(v) };
+            format!("{} {} {}", g(a, *pa), if *or { "or" } else { "and" }, g(b, *pb))
+        }
         Cond::Lib { arr, val } => format!("array_contains ${{a{}}} {}", arr, rarg(val)),
     }
 }
@@ -440,6 +446,10 @@ impl<'a> Interp<'a> {
             Cond::NotNot(v) => {
                 self.probes.push("not-not-condition");
                 Ok(truthy(v))
+            }
+            Cond::Group2 { a, b, or, .. } => {
+                self.probes.push("condition-with-a-parenthesised-group");
+                Ok(if *or { truthy(a) || truthy(b) } else { truthy(a) && truthy(b) })
             }
             Cond::NlOut(v) => {
                 self.probes.push("condition-output-with-line-break");
@@ -1176,6 +1186,15 @@ impl<'r> G<'r> {
         match self.rng.below(10) {
             0 | 1 => Cond::Val(self.cond_value(ctx)),
             2 => Cond::NotVal(self.cond_value(ctx)),
+            3 | 4 if self.rng.chance(1, 3) => {
+                let lit = |r: &mut Rng| r.pick(&["true", "false", "0", "yes", "no", "hello", "1"]).to_string();
+                let (pa, pb) = match self.rng.below(3) {
+                    0 => (true, false),
+                    1 => (false, true),
+                    _ => (true, true),
+                };
+                Cond::Group2 { a: lit(self.rng), b: lit(self.rng), or: self.rng.chance(1, 2), pa, pb }
+            }
             3 => {
                 let n = 2 + self.rng.usize(2);
                 Cond::And((0..n).map(|_| self.cond_value(ctx)).collect())
